@@ -69,6 +69,8 @@ func randomNames(rng *rand.Rand, n int) []string {
 		func() string { const cs = "abz._-/:$ \x01\x7f\x80\xff"; return string([]byte{cs[rng.Intn(len(cs))]}) },
 		func() string { return []string{"a", "ab", "x", "", "struct.", "."}[rng.Intn(6)] },
 		func() string { return strconv.Itoa(rng.Intn(3)) },
+		// control bytes, NUL first: a name followed by NUL bytes is another name (the end of a string is no byte)
+		func() string { return []string{"\x00", "\x00\x00", "\x00\x01", "\t", "\n", "\x1f"}[rng.Intn(6)] },
 		func() string { // around 2^63 / 2^64
 			return []string{"9223372036854775807", "9223372036854775808", "18446744073709551615", "18446744073709551616", "09223372036854775808"}[rng.Intn(5)]
 		},
@@ -118,7 +120,7 @@ func judgeRelation(rep *mbt.Report, names []string, label string) {
 			if less {
 				rows[i].LT = append(rows[i].LT, j+1)
 			}
-			rep.Count("pair:"+a+"\x00"+b, a != b)
+			rep.Count(fmt.Sprintf("pair:%d:%s%s", len(a), a, b), a != b) // names may hold any byte: no separator is safe
 		}
 	}
 	t := mbt.MustTLC(mbt.TLCOpts{Spec: "NatSortTrace", Cfg: "NatSortTrace.cfg", Workers: 8, Continue: true,
@@ -175,6 +177,13 @@ func Run(tier, replay string) {
 	}
 	rep.AddTLC(t)
 	t.Cleanup()
+	// the same axioms over the control-byte classes (NUL, 0x01 next to a digit and a letter)
+	t = mbt.MustTLC(mbt.TLCOpts{Spec: "NatSort", Cfg: "NatSortCtl.cfg", Timeout: 30 * time.Minute})
+	if len(t.Violated) > 0 {
+		mbt.Infra("reference order of NatSort.tla violates %v over the control-byte alphabet: specification error", t.Violated)
+	}
+	rep.AddTLC(t)
+	t.Cleanup()
 	t = mbt.MustTLC(mbt.TLCOpts{Spec: "NatSort", Cfg: "NatSortVacuity.cfg"})
 	if len(t.Violated) == 0 {
 		mbt.Infra("vacuity guard: the numeric-run law never applies in the model")
@@ -194,6 +203,9 @@ func Run(tier, replay string) {
 	// (T) code -> spec: record the real comparison, judged by TLC.
 	exh := stringsUpTo([]byte{'0', '1', '2', '9', 'a', '/', ':', 0xFF}, 3)
 	judgeRelation(rep, exh, "exhaustive")
+	// the control-byte classes of NatSortCtl.cfg (NUL is the least byte and not the end of a name), with a digit
+	// run before and after them
+	judgeRelation(rep, stringsUpTo([]byte{0x00, 0x01, '0', '7', 'a'}, 3), "exhaustive-control-bytes")
 	rounds, per := 1, 260
 	if tier == "thorough" {
 		rounds, per = 6, 420
